@@ -335,7 +335,7 @@ func (n *Node) spawn() error {
 	}
 	select {
 	case <-ready:
-	case <-time.After(5 * time.Second):
+	case <-time.After(30 * time.Second):
 		return errors.New("event observer did not start")
 	}
 	// receiving actor: records, answers Asks
